@@ -456,6 +456,12 @@ def rule_writer_accepts_what_encoders_send(ctx, rule_id="C15.api-domain"):
         "isinstance(%s, dt.datetime)" % p0 in norm(x.test) or "hasattr(%s, 'hour')" % p0 in norm(x.test)) and any(
             isinstance(a_, ast.Assign) and norm(a_.targets[0]) == p0 and "combine" in norm(a_.value) for a_ in x.body)]
     ok = bool(conv) and (first_use is None or conv[0].lineno < first_use)
+    # ... and the midnight it is combined with is midnight UTC (as parse_into_datetime reads a plain date)
+    if ok:
+        cmb = [c_ for a_ in conv[0].body if isinstance(a_, ast.Assign) for c_ in ast.walk(a_.value)
+               if isinstance(c_, ast.Call) and isinstance(c_.func, ast.Attribute) and c_.func.attr == "combine"]
+        ok = bool(cmb) and len(cmb[0].args) == 2 and isinstance(cmb[0].args[1], ast.Call) and any(
+            k.arg == "tzinfo" and norm(k.value) in UTC_NAMES for k in cmb[0].args[1].keywords)
     run.check(ok, rule_id, key(fi.module.relpath, fi.qualname, "writer-accepts-plain-dates"),
               "the encoders (%s) send plain datetime.date values to format_datetime, which reads .tzinfo / time fields a date does "
               "not have: AttributeError while serialising" % ", ".join(sorted(sends_date)), file=fi.module.relpath,
